@@ -111,6 +111,9 @@ def ub_reports(errtext):
     return out
 
 
+WATCHDOGS = []      # (outdir, case) of every child that hit the wall-clock backstop in this check run: never a verdict, always inconclusive
+
+
 class Results:
     def __init__(self):
         self.cases = 0
@@ -186,8 +189,9 @@ def parse_out(outdir, prop_for_crash=None, want_tags=("RES", "FINAL", "BUDGET"))
             R.case_ops[case] = ops
             if status == "ok":
                 pass
-            elif status == "watchdog":
+            elif status in ("watchdog", "skipped_after_watchdogs"):
                 R.watchdog.append(case)
+                WATCHDOGS.append((os.path.basename(outdir), case))
             elif status == "harness":
                 # a library call the workload makes unconditionally (valid use by construction) threw: on the unchanged tree this never
                 # happens, so it is reported as a violation of the running property rather than hidden as a harness problem
@@ -280,6 +284,8 @@ def finish(prop, tier, level, coverage, viols, t0, replay_info=None, assumptions
             json.dump(info, open(rp, "w"), indent=1)
             print("VIOLATION property=%s replay=%s" % (prop, rp))
             print("  key=%s occurrences=%d detail=%s" % (key, len(vs), v["detail"][:300]))
+    if WATCHDOGS and not inconclusive:
+        inconclusive = "the wall-clock watchdog ended %d case(s) (%s ...): no verdict for them; re-run, and look at the PRE line of the case log if it persists" % (len(WATCHDOGS), WATCHDOGS[:3])
     if inconclusive and rc == 0:
         print("INCONCLUSIVE property=%s %s" % (prop, inconclusive))
         rc = 2
